@@ -162,7 +162,7 @@ fn child_b(parts: &[&str]) {
     vcommon::quiet_panics();
     let prog = ProgB::parse(parts[1]);
     let (shard, nshards, bound): (usize, usize, usize) = (parts[2].parse().unwrap(), parts[3].parse().unwrap(), parts[4].parse().unwrap());
-    let cfg = vsched::Config { preemption_bound: bound, max_steps: 5_000, exec_timeout: Duration::from_secs(30), record_trace: false, max_executions: u64::MAX };
+    let cfg = vsched::Config { preemption_bound: bound, max_steps: 5_000, exec_timeout: Duration::from_secs(30), record_trace: false, max_executions: u64::MAX, count_all_deviations: false };
     let p2 = prog.clone();
     let body = move || partb::body(&p2);
     if shard == 0 {
